@@ -7,6 +7,7 @@ import TypedpyModel.Drive.Wire
 import TypedpyModel.Spec.Conforms
 import TypedpyModel.Spec.WfDecl
 import TypedpyModel.Sem.Entry
+import TypedpyModel.Sem.Decimal
 namespace Typedpy.Drive.Construct
 open Lean (Json)
 open Typedpy Typedpy.Wire
@@ -37,10 +38,93 @@ def entryOfJson (j : Json) : Except String EntryOp := do
   | "castTo" => pure .castTo
   | s => throw s!"entry op {s}"
 
+/-- exception classes of every failing field at the FIRST failing step of a chain (the real constructor applies
+    defaults before arguments, so with several invalid fields only the set is comparable) -/
+def chainErrs (O : Oracles) (cls : FieldDecl) : PyVal → List EntryOp → List String
+  | _, [] => []
+  | x, op :: rest =>
+    match applyEntryH O cls x op with
+    | .ok y => chainErrs O cls y rest
+    | .error _ => match entryKw cls x op with
+      | some kw => fieldErrs O cls kw
+      | none => []
+
+/-- the verdicts of the Lean format functions (`ipv4Ok`, `hostNameOk`) on every string the case's oracle table lists
+    for their tokens: the harness compares them with its own independent implementation and with typedpy -/
+def fmtVerdicts (j : Json) : Except String Json := do
+  match optField j "re" with
+  | none => pure (Json.arr #[])
+  | some x => do
+    let rows ← (← x.getArr?).toList.filterMapM fun t => do
+      let a ← t.getArr?
+      let p ← a[0]!.getStr?
+      let s ← a[1]!.getStr?
+      if p == ipv4Token || p == hostNameToken then
+        pure (some (Json.arr #[.str p, .str s, .bool (fmtMatch (fun _ _ => false) p s)]))
+      else pure none
+    pure (Json.arr rows.toArray)
+
+/-- DecimalNumber positions of the class ("decs": [[field, "bare" | "items" | "values"]]) and the `Decimal(str)` oracle
+    table ("decParse": [[string, [num, den] | null]]) -/
+def decsOfJson (j : Json) : Except String (List (String × DecPos)) :=
+  match optField j "decs" with
+  | none => pure []
+  | some x => do
+    (← x.getArr?).toList.mapM fun t => do
+      let a ← t.getArr?
+      let pos ← match ← a[1]!.getStr? with
+        | "bare" => pure DecPos.bare | "items" => pure DecPos.items | "values" => pure DecPos.values
+        | s => throw s!"dec position {s}"
+      pure ((← a[0]!.getStr?), pos)
+
+def decParseOfJson (j : Json) : Except String (String → Option Q) := do
+  let table : List (String × Option Q) ← match optField j "decParse" with
+    | none => pure []
+    | some x => (← x.getArr?).toList.mapM fun t => do
+      let a ← t.getArr?
+      let q ← match a[1]! with
+        | .null => pure none
+        | y => do pure (some (← qOfJson y))
+      pure ((← a[0]!.getStr?), q)
+  pure fun s => match table.find? (fun t => t.1 == s) with | some t => t.2 | none => none
+
+/-- error classes of the failing conversions (per argument), for order-independent comparison -/
+def convErrs (parse : String → Option Q) (decs : List (String × DecPos)) (kw : List (String × PyVal)) : List String :=
+  kw.filterMap fun (name, v) => match convertAt parse decs name v with
+    | .ok _ => none
+    | .error e => some (errName e)
+
+/-- the keyword arguments with every convertible argument converted (a failing one is left as it is) -/
+def convertLenient (parse : String → Option Q) (decs : List (String × DecPos)) (kw : List (String × PyVal)) :
+    List (String × PyVal) :=
+  kw.map fun (name, v) => match convertAt parse decs name v with
+    | .ok y => (name, y)
+    | .error _ => (name, v)
+
+def runDecimal (j : Json) (O : Oracles) (cls : FieldDecl) (kw : List (String × PyVal))
+    (decs : List (String × DecPos)) : Except String Json := do
+  let parse ← decParseOfJson j
+  let res := constructD parse O cls decs kw
+  let conv := convertKw parse decs kw
+  let (adm, nrm) := match conv with
+    | .ok kw' => (admitsKw O cls kw' && O.hookOk (instAttrs (normKw O cls kw')), normKw O cls kw')
+    | .error _ => (false, PyVal.none)
+  let base := [("res", resToJson res), ("admits", Json.bool adm), ("norm", valToJson nrm),
+               ("errs", Json.arr ((convErrs parse decs kw ++ fieldErrs O cls (convertLenient parse decs kw)).map Json.str).toArray),
+               ("wfDecl", Json.bool (wfDecl cls)), ("fmtLean", ← fmtVerdicts j)]
+  let extra ← match optField j "impl" with
+    | none => pure []
+    | some x => do
+      let v ← valOfJson x
+      pure [("implWellFormed", Json.bool (wellFormed O cls v))]
+  pure (Json.mkObj (base ++ extra))
+
 def run (j : Json) : Except String Json := do
   let O ← oraclesOfJson j
   let cls ← declOfJson (← j.getObjVal? "cls")
   let kw ← kwOfJson (← j.getObjVal? "kw")
+  let decs ← decsOfJson j
+  if !decs.isEmpty then return (← runDecimal j O cls kw decs)
   let res := constructH O cls kw
   let base := [("res", resToJson res),
                ("admits", Json.bool (admitsKw O cls kw)),
@@ -53,8 +137,11 @@ def run (j : Json) : Except String Json := do
       let r := match res with
         | .ok inst => runChainH O cls inst ops
         | .error e => .error e
-      pure [("chainRes", resToJson r)]
-  let base := base ++ chainPart ++ [("wfDecl", Json.bool (wfDecl cls))]
+      let errs := match res with
+        | .ok inst => chainErrs O cls inst ops
+        | .error _ => []
+      pure [("chainRes", resToJson r), ("chainErrs", Json.arr (errs.map Json.str).toArray)]
+  let base := base ++ chainPart ++ [("wfDecl", Json.bool (wfDecl cls)), ("fmtLean", ← fmtVerdicts j)]
   let extra ← match optField j "impl" with
     | none => pure []
     | some x => do
